@@ -27,6 +27,9 @@ func Run(cfg *hx.Config) error {
 	for _, ops := range valueCases() {
 		emit("value", ops, []string{"value-fixed"})
 	}
+	for _, ops := range bulkCases(cfg.Tier) {
+		emit("bulk", ops, []string{"bulk-fixed"})
+	}
 	for _, ops := range restartCases() {
 		emit("restart", ops, []string{"restart-fixed"})
 	}
